@@ -1093,7 +1093,7 @@ def run(ctx):
     from vf import model
     model.check_analysis()
     check_extra_analysis()
-    for idx in ctx.cases(quick=30, thorough=45):
+    for idx in ctx.cases(quick=30, thorough=70):
         rng = ctx.rng(idx)
         ctx.reseed_global(idx)
         nested = rng.random() < 0.15
